@@ -299,10 +299,11 @@ def slice_closure(ctx, py: PyRepo):
     ctx.require(len(params) == 5, 'supporting_database_for_provable: signature changed (expected cut antecedents, global disjoints, '
                                   'syntax dependencies, provable, essentials)')
     CUT, _GD, _SD, PROV, ESS = params
-    ret = [n for n in fn.body if isinstance(n, ast.Return)]
-    ctx.require(len(ret) == 1 and re.fullmatch(r'Database\(tuple\((\w+)\)\)', ast.unparse(ret[0].value)) is not None,
+    from .c16 import returned_exprs
+    ret = [v for st, v in returned_exprs(fn) if st in fn.body]
+    ctx.require(len(ret) == 1 and re.fullmatch(r'Database\(tuple\((\w+)\)\)', ast.unparse(ret[0])) is not None,
                 'supporting_database_for_provable: does not end in `return Database(tuple(<list>))`')
-    OUT = re.fullmatch(r'Database\(tuple\((\w+)\)\)', ast.unparse(ret[0].value)).group(1)
+    OUT = re.fullmatch(r'Database\(tuple\((\w+)\)\)', ast.unparse(ret[0])).group(1)
     top_index = {}
     for i, st in enumerate(fn.body):
         for n in ast.walk(st):
